@@ -158,6 +158,9 @@ class FakeS3Client:
             if sim is not None and self.store.keep_history and Key.endswith(".lock"):
                 sim.extra.setdefault("lock_reads", []).append(
                     (sim.gstep + 0, cur_actor().name if cur_actor() else "-", _owner(data)))
+                # a GET also tells the caller the object's age (LastModified): it is an inspection like a HEAD
+                sim.extra.setdefault("lock_heads", []).append(
+                    (sim.gstep + 0, cur_actor().name if cur_actor() else "-", sim.true_time(), o.mtime, _owner(o.body)))
             return {"Body": Body(data), "ETag": o.etag, "LastModified": _stamp(o.mtime),
                     "ContentLength": len(data)}
         return self._call("get", Key, do, "GetObject")
